@@ -270,13 +270,13 @@ pub fn c14_check(dt: &DateTime, ns: Option<u32>, origin: &'static str) -> bool {
     let ok_fields = cal::valid_civil(y, dt.month(), dt.month_day(), dt.hour(), dt.minute(), dt.second(), 0) && cal::unix_from_civil(y, dt.month(), dt.month_day(), dt.hour(), dt.minute(), dt.second()) as i128 == shifted;
     let days = if ok_fields { cal::days_from_civil(y, dt.month() as u32, dt.month_day() as i64) } else { 0 };
     let ok_derived = !ok_fields || (dt.week_day() == cal::weekday_of_days(days) && dt.year_day() as i64 == days - cal::days_from_civil(y, 1, 1));
-    let ok_ns = ns.map(|n| n == dt.nanoseconds()).unwrap_or(true);
+    let ok_ns = ns.map(|n| n == dt.nanoseconds()).unwrap_or(true) && dt.total_nanoseconds() == dt.unix_time() as i128 * 1_000_000_000 + dt.nanoseconds() as i128;
     if !(ok_fields && ok_derived && ok_ns) {
         side(
             "C14 invariant: zoned date-time fields do not denote (unix time + offset)",
             format!("value returned by {}", origin),
-            format!("fields = UTC calendar of {} (second 60 = next minute), week/year day consistent, ns = {:?}", shifted, ns),
-            format!("{} week_day={} year_day={}", fmt_dt(dt), dt.week_day(), dt.year_day()),
+            format!("fields = UTC calendar of {} (second 60 = next minute), week/year day consistent, ns = {:?}, total_nanoseconds() = unix_time * 1e9 + nanoseconds", shifted, ns),
+            format!("{} week_day={} year_day={} total_nanoseconds={}", fmt_dt(dt), dt.week_day(), dt.year_day(), dt.total_nanoseconds()),
         );
         return false;
     }
